@@ -92,9 +92,9 @@ def ul(tier):
         # quick: a stratified sample; thorough: EVERY list without a VaryingSize parameter (their fill model is tiny)
         # and one list per fine signature of those with one
         if tier == 'quick':
-            sel = [('pairs', False, True, 1, False), ('pairs2', False, True, 2, False), ('triples', False, True, 8, False),
-                   ('pairs', False, False, 4, False), ('pairs2', False, False, 12, False),
-                   ('triples', False, False, 40, False)]
+            sel = [('pairs', False, True, 1, False), ('pairs2', False, True, 3, False), ('triples', False, True, 16, False),
+                   ('pairs', False, False, 6, False), ('pairs2', False, False, 20, False),
+                   ('triples', False, False, 80, False)]
         else:
             sel = [('pairs', True, True, 1, True), ('pairs2', True, True, 1, True), ('triples', True, True, 1, True),
                    ('pairs', True, False, 1, False), ('pairs2', True, False, 1, False),
@@ -328,7 +328,7 @@ SRC_TYPES = {'id': ('std::uint32_t', 'std::uint32_t'), 'widen': ('std::uint16_t'
              'str': ('std::string', 'std::string')}
 FORM_NAMES = {1: 'std::vector lvalue', 2: 'std::vector rvalue', 3: 'std::array lvalue', 4: 'C array lvalue',
               5: 'std::list lvalue', 6: 'std::list rvalue', 7: 'generated single-pass range', 8: 'raw pointer',
-              9: 'std::vector iterator', 10: 'std::list iterator', 11: 'std::move_iterator'}
+              9: 'std::vector iterator', 10: 'std::list iterator', 11: 'std::move_iterator', 12: 'std::reverse_iterator over std::vector'}
 
 
 def src_cases():
